@@ -757,14 +757,10 @@ def _run(scn: dict) -> dict:
 
         def nviol(name, cls, sig, detail):
             """A violation about one service name (own class where the name is part of a construct with a finding)."""
-            if name in mixed:
-                viol("C12.name_differing_in_case", {"what": cls.split(".", 1)[1]},
-                     detail + f" [pyscript.{name} has been declared both as 'pyscript.S{name[1:]}' and as 'pyscript.{name}']")
-                state["leaked"] = True
-            elif cls == "C12.registration" and not sig["should_exist"] and _form_of(name) == "dup_names":
-                viol("C12.name_given_twice_released_once", {},
-                     detail + " [the function that declared it gave this name twice in one @service]")
-                state["leaked"] = True
+            # (the two findings that used to be re-labelled here - names differing only in case, a name given twice -
+            # are repaired in /repo: violations keep their own class)
+            if False:
+                pass
             else:
                 viol(cls, sig, detail)
 
